@@ -35,8 +35,8 @@ type TxOpts struct {
 	EIP712   bool // legacy Web3 extension route
 	// EIP712Direct: plain Cosmos route, signature over the EIP-712 form of the sign doc
 	EIP712Direct bool
-	Timeout  uint64
-	ExtOpts  []*codectypes.Any
+	Timeout      uint64
+	ExtOpts      []*codectypes.Any
 }
 
 func (w *World) TxConfig() client.TxConfig { return w.Enc.TxConfig }
@@ -297,6 +297,12 @@ func (w *World) NewEthMsg(a *Account, e EthArgs) (*evmtypes.MsgEthereumTx, error
 // WrapEthMsgs puts signed MsgEthereumTx messages into the Cosmos envelope the
 // way the JSON-RPC server does (extension option, fee = sum of fees, no sigs).
 func (w *World) WrapEthMsgs(msgs ...*evmtypes.MsgEthereumTx) ([]byte, error) {
+	return w.WrapEthMsgsExt(nil, msgs...)
+}
+
+// WrapEthMsgsExt builds the Cosmos envelope of Ethereum messages with further
+// extension options behind the Ethereum one (a malformed but decodable tx).
+func (w *World) WrapEthMsgsExt(extra []*codectypes.Any, msgs ...*evmtypes.MsgEthereumTx) ([]byte, error) {
 	tb := w.TxConfig().NewTxBuilder()
 	fee := sdk.Coins{}
 	var gas uint64
@@ -316,7 +322,7 @@ func (w *World) WrapEthMsgs(msgs ...*evmtypes.MsgEthereumTx) ([]byte, error) {
 	if err != nil {
 		return nil, err
 	}
-	tb.(authtx.ExtensionOptionsTxBuilder).SetExtensionOptions(opt)
+	tb.(authtx.ExtensionOptionsTxBuilder).SetExtensionOptions(append([]*codectypes.Any{opt}, extra...)...)
 	tb.SetGasLimit(gas)
 	tb.SetFeeAmount(fee)
 	return w.TxConfig().TxEncoder()(tb.GetTx())
